@@ -8,7 +8,8 @@ import (
 	"crypto"
 	"crypto/ecdsa"
 	"crypto/elliptic"
-	"crypto/rand"
+	"crypto/sha256"
+	"crypto/sha512"
 	sx "crypto/x509"
 	spkix "crypto/x509/pkix"
 	sasn1 "encoding/asn1"
@@ -21,6 +22,8 @@ import (
 
 	"verif/ref/der"
 	"verif/ref/pki"
+
+	"github.com/google/certificate-transparency-go/x509"
 )
 
 // feat is one point of the template space.
@@ -117,6 +120,11 @@ type built struct {
 	Name string
 	// builder-known offsets of the raw regions (der encoder only; -1 otherwise)
 	TBSOff, TBSLen, IssOff, IssLen, SubOff, SubLen, SPKIOff, SPKILen int
+	// ground truth for what crypto/x509 has no field for (fork-only fields), from the template
+	Expect     func(c *x509.Certificate) string
+	ExpectList func(l *x509.CertificateList) string
+	// the fork interprets this critical extension, crypto/x509 reports it as unhandled
+	IgnoreUnhandled bool
 }
 
 // ---- names
@@ -298,18 +306,55 @@ func outerHeader(total int) int {
 	panic("outerHeader")
 }
 
+// zeroReader makes every signature reproducible: ECDSA derives its nonce from the
+// key, the digest and this stream; RSA PKCS#1 v1.5 and Ed25519 do not use it.
+type zeroReader struct{}
+
+func (zeroReader) Read(p []byte) (int, error) {
+	for i := range p {
+		p[i] = 0
+	}
+	return len(p), nil
+}
+
+func detSign(k *pki.Key, msg []byte) []byte {
+	var sig []byte
+	var err error
+	switch k.Kind {
+	case "ed25519":
+		sig, err = k.Priv.Sign(zeroReader{}, msg, crypto.Hash(0))
+	case "p384":
+		h := sha512.Sum384(msg)
+		sig, err = k.Priv.Sign(zeroReader{}, h[:], crypto.SHA384)
+	default:
+		h := sha256.Sum256(msg)
+		sig, err = k.Priv.Sign(zeroReader{}, h[:], crypto.SHA256)
+	}
+	if err != nil {
+		panic(err)
+	}
+	return sig
+}
+
+// assemble signs the template like pki.Build, reproducibly.
+func assemble(t pki.Tmpl, signer *pki.Key) (certDER, tbs []byte) {
+	alg := signer.SigAlgDER()
+	tbs = t.TBS(alg)
+	return pki.Assemble(tbs, alg, detSign(signer, tbs)), tbs
+}
+
 func buildDER(f feat) *built {
 	sub, iss := derNames(f.Subj)
 	k := pki.LoadKey(keyNames[f.Key][0])
 	signer := pki.LoadKey(keyNames[f.Key][1])
 	t := pki.Tmpl{Serial: serials[f.Serial], Issuer: iss, Subject: sub, NotBefore: validities[f.Val][0], NotAfter: validities[f.Val][1], Key: k, Exts: derExts(f)}
-	c := pki.Build(t, signer)
-	b := &built{DER: c.DER, F: f, Kind: "cert", Name: f.String()}
+	certDER, tbsDER := assemble(t, signer)
+	b := &built{DER: certDER, F: f, Kind: "cert", Name: f.String()}
 	// what the builder knows: the pieces it concatenated
-	b.TBSOff = outerHeader(len(c.DER))
-	b.TBSLen = len(c.TBS)
+	b.TBSOff = outerHeader(len(certDER))
+	b.TBSLen = len(tbsDER)
 	nb, na := der.Time(t.NotBefore), der.Time(t.NotAfter)
-	pre := outerHeader(len(c.TBS)) + len(der.Explicit(0, der.Int(2))) + len(der.IntMag(t.Serial)) + len(signer.SigAlgDER())
+	pre := outerHeader(len(tbsDER)) + len(der.Explicit(0, der.Int(2))) + len(der.IntMag(t.Serial)) + len(signer.SigAlgDER())
 	b.IssOff, b.IssLen = b.TBSOff+pre, len(iss.DER())
 	b.SubOff, b.SubLen = b.IssOff+b.IssLen+len(der.Seq(nb, na)), len(sub.DER())
 	b.SPKIOff, b.SPKILen = b.SubOff+b.SubLen, len(k.SPKI)
@@ -392,7 +437,7 @@ func buildStd(f feat) *built {
 	if f.UnkNon {
 		t.ExtraExtensions = append(t.ExtraExtensions, spkix.Extension{Id: oidUnkNon, Value: unkNonVal})
 	}
-	d, err := sx.CreateCertificate(rand.Reader, t, parent, k.Priv.Public(), signer.Priv)
+	d, err := sx.CreateCertificate(zeroReader{}, t, parent, k.Priv.Public(), signer.Priv)
 	if err != nil {
 		panic(fmt.Sprintf("harness: CreateCertificate(%v): %v", f, err))
 	}
@@ -424,8 +469,8 @@ func richCerts() []*built {
 			t.Subject = sub
 		}
 		t.NotBefore, t.NotAfter, t.Key = validities[0][0], validities[0][1], k
-		c := pki.Build(t, signer)
-		out = append(out, &built{DER: c.DER, Kind: "cert", Name: "rich:" + name, TBSOff: -1})
+		certDER, _ := assemble(t, signer)
+		out = append(out, &built{DER: certDER, Kind: "cert", Name: "rich:" + name, TBSOff: -1})
 	}
 	dirName := der.ImplicitCons(4, sub.DER())
 	otherName := der.ImplicitCons(0, der.OID(1, 3, 6, 1, 4, 1, 311, 20, 2, 3), der.Explicit(0, der.UTF8("upn@example.com")))
@@ -455,6 +500,124 @@ func richCerts() []*built {
 	mk("policy-constraints-and-inhibit-any-critical", pki.Tmpl{Exts: []pki.Ext{{OID: []int{2, 5, 29, 54}, Critical: true, Value: der.Int(0)}, {OID: []int{2, 5, 29, 36}, Critical: true, Value: der.Seq(der.ImplicitPrim(0, []byte{0}))}}})
 	mk("serial-zero", pki.Tmpl{Serial: []byte{0}})
 	mk("notafter-99991231235959Z", pki.Tmpl{NotAfterDER: der.GeneralizedTime(time.Date(9999, 12, 31, 23, 59, 59, 0, time.UTC))})
+	// extensions only the fork interprets: expectations written from RFC 3779 / RFC 5280 4.2.2.2 / RFC 6962 3.3
+	bits := func(b []byte, n int) []byte { return der.BitString(b, byte(len(b)*8-n)) }
+	mk("rpki-ip-addr-blocks", pki.Tmpl{Exts: []pki.Ext{{OID: []int{1, 3, 6, 1, 5, 5, 7, 1, 7}, Critical: true, Value: der.Seq(
+		der.Seq(der.OctetString([]byte{0, 1}), der.Seq(bits([]byte{10}, 8), bits([]byte{192, 0, 2}, 24), der.Seq(bits([]byte{172, 16}, 12), bits([]byte{172, 31}, 16)))),
+		der.Seq(der.OctetString([]byte{0, 2, 1}), der.Null()))}}})
+	out[len(out)-1].IgnoreUnhandled = true
+	out[len(out)-1].Expect = func(c *x509.Certificate) string {
+		got := fmt.Sprintf("%d", len(c.RPKIAddressRanges))
+		for _, f := range c.RPKIAddressRanges {
+			got += fmt.Sprintf(" {afi=%d safi=%d inherit=%v prefixes=%v ranges=%v}", f.AFI, f.SAFI, f.InheritFromIssuer, f.AddressPrefixes, f.AddressRanges)
+		}
+		want := "2 {afi=1 safi=0 inherit=false prefixes=[{[10] 8} {[192 0 2] 24}] ranges=[{{[172 16] 12} {[172 31] 16}}]} {afi=2 safi=1 inherit=true prefixes=[] ranges=[]}"
+		if got != want {
+			return "RPKIAddressRanges = " + got + ", want " + want
+		}
+		return ""
+	}
+	mk("rpki-as-identifiers", pki.Tmpl{Exts: []pki.Ext{{OID: []int{1, 3, 6, 1, 5, 5, 7, 1, 8}, Critical: true, Value: der.Seq(
+		der.Explicit(0, der.Seq(der.Int(64496), der.Seq(der.Int(64500), der.Int(64510)), der.Int(4200000000))),
+		der.Explicit(1, der.Null()))}}})
+	out[len(out)-1].IgnoreUnhandled = true
+	out[len(out)-1].Expect = func(c *x509.Certificate) string {
+		got := fmt.Sprintf("%+v %+v", c.RPKIASNumbers, c.RPKIRoutingDomainIDs)
+		want := "&{InheritFromIssuer:false ASIDs:[64496 4200000000] ASIDRanges:[{Min:64500 Max:64510}]} &{InheritFromIssuer:true ASIDs:[] ASIDRanges:[]}"
+		if got != want {
+			return "RPKIASNumbers, RPKIRoutingDomainIDs = " + got + ", want " + want
+		}
+		return ""
+	}
+	mk("subject-info-access", pki.Tmpl{Exts: []pki.Ext{{OID: []int{1, 3, 6, 1, 5, 5, 7, 1, 11}, Value: der.Seq(
+		der.Seq(der.OID(1, 3, 6, 1, 5, 5, 7, 48, 5), gn(6, []byte("rsync://repo.example.com/"))),
+		der.Seq(der.OID(1, 3, 6, 1, 5, 5, 7, 48, 3), gn(6, []byte("http://tsa.example.com"))),
+		der.Seq(der.OID(1, 3, 6, 1, 5, 5, 7, 48, 5), dirName),
+		der.Seq(der.OID(1, 3, 6, 1, 5, 5, 7, 48, 10), gn(6, []byte("rsync://repo.example.com/m.mft"))))}}})
+	out[len(out)-1].Expect = func(c *x509.Certificate) string {
+		got := fmt.Sprintf("%q %q", c.SubjectCARepositories, c.SubjectTimestamps)
+		want := `["rsync://repo.example.com/"] ["http://tsa.example.com"]`
+		if got != want {
+			return "SubjectCARepositories, SubjectTimestamps = " + got + ", want " + want
+		}
+		return ""
+	}
+	sct1, sct2 := []byte{1, 2, 3}, bytes.Repeat([]byte{0xab}, 47)
+	tlsList := cat([]byte{0, byte(2 + len(sct1) + 2 + len(sct2))}, []byte{0, byte(len(sct1))}, sct1, []byte{0, byte(len(sct2))}, sct2)
+	mk("embedded-sct-list", pki.Tmpl{Exts: []pki.Ext{pki.ExtSCTList(tlsList), pki.ExtSKI(skiBytes)}})
+	out[len(out)-1].Expect = func(c *x509.Certificate) string {
+		if !bytes.Equal(c.RawSCT, tlsList) || len(c.SCTList.SCTList) != 2 || !bytes.Equal(c.SCTList.SCTList[0].Val, sct1) || !bytes.Equal(c.SCTList.SCTList[1].Val, sct2) {
+			return fmt.Sprintf("RawSCT = %x, SCTList = %v", c.RawSCT, c.SCTList)
+		}
+		return ""
+	}
+	return out
+}
+
+// richCRLs: der-built CRLs with every extension revoked.go cracks out.
+func richCRLs() []*built {
+	var out []*built
+	sub, iss := derNames(true)
+	signer := pki.LoadKey("p256-0")
+	ext := func(crit bool, val []byte, oid ...int) []byte {
+		if crit {
+			return der.Seq(der.OID(oid...), der.Bool(true), der.OctetString(val))
+		}
+		return der.Seq(der.OID(oid...), der.OctetString(val))
+	}
+	enumerated := func(n byte) []byte { return der.TLV(0x0a, []byte{n}) }
+	this, next := time.Date(2049, 12, 31, 23, 0, 0, 0, time.UTC), time.Date(2050, 1, 31, 23, 0, 0, 0, time.UTC)
+	dirName := der.ImplicitCons(4, sub.DER())
+	build := func(name string, delta bool) {
+		entries := der.Seq(
+			der.Seq(der.IntMag(serials[0]), der.Time(this.Add(-time.Hour))),
+			der.Seq(der.IntMag(serials[1]), der.Time(this.Add(-2*time.Hour)), der.Seq(
+				ext(false, enumerated(1), 2, 5, 29, 21),
+				ext(false, der.GeneralizedTime(this.Add(-72*time.Hour)), 2, 5, 29, 24),
+				ext(true, der.Seq(dirName), 2, 5, 29, 29))),
+			der.Seq(der.IntMag(serials[2]), der.Time(this.Add(-3*time.Hour)), der.Seq(ext(false, enumerated(8), 2, 5, 29, 21))))
+		exts := [][]byte{
+			ext(false, der.Seq(der.ImplicitPrim(0, akiBytes)), 2, 5, 29, 35),
+			ext(false, der.Seq(gn(1, []byte("ca@example.com")), gn(6, []byte("http://ca.example.com/")), gn(2, []byte("ca.example.com")), gn(7, sanIP[0])), 2, 5, 29, 18),
+			ext(false, der.Int(4660), 2, 5, 29, 20),
+		}
+		if delta {
+			exts = append(exts, ext(true, der.Int(4600), 2, 5, 29, 27))
+		}
+		exts = append(exts,
+			ext(true, der.Seq(der.ImplicitCons(0, der.ImplicitCons(0, gn(6, []byte(crlURLs[0])))), der.ImplicitPrim(1, []byte{0xff})), 2, 5, 29, 28),
+			ext(false, der.Seq(der.Seq(der.ImplicitCons(0, der.ImplicitCons(0, gn(6, []byte("http://crl.example.com/delta.crl")))))), 2, 5, 29, 46),
+			ext(false, der.Seq(der.Seq(der.OID(oidIssuer...), gn(6, []byte(issuerURL[0]))), der.Seq(der.OID(oidOCSP...), gn(6, []byte(ocspURL[0])))), oidAIA...))
+		tbs := der.Seq(der.Int(1), signer.SigAlgDER(), iss.DER(), der.Time(this), der.Time(next), entries, der.Explicit(0, der.Seq(exts...)))
+		d := der.Seq(tbs, signer.SigAlgDER(), der.BitString(detSign(signer, tbs), 0))
+		b := &built{DER: d, Kind: "crl", Name: "rich-crl:" + name, TBSOff: -1}
+		b.ExpectList = func(l *x509.CertificateList) string {
+			t := l.TBSCertList
+			base := -1
+			if delta {
+				base = 4600
+			}
+			got := fmt.Sprintf("number=%d base=%d aki=%x ian=%q/%q/%q/%d idp.user=%v idp.names=%q fresh=%q ocsp=%q issuers=%q", t.CRLNumber, t.BaseCRLNumber, t.AuthorityKeyID,
+				t.IssuerAltNames.EmailAddresses, t.IssuerAltNames.URIs, t.IssuerAltNames.DNSNames, len(t.IssuerAltNames.IPNets),
+				t.IssuingDistributionPoint.OnlyContainsUserCerts, t.IssuingDPFullNames.URIs, t.FreshestCRLDistributionPoint, t.OCSPServer, t.IssuingCertificateURL)
+			want := fmt.Sprintf("number=4660 base=%d aki=%x ian=%q/%q/%q/1 idp.user=true idp.names=%q fresh=%q ocsp=%q issuers=%q", base, akiBytes,
+				[]string{"ca@example.com"}, []string{"http://ca.example.com/"}, []string{"ca.example.com"}, []string{crlURLs[0]}, []string{"http://crl.example.com/delta.crl"}, ocspURL, issuerURL)
+			if got != want {
+				return got + ", want " + want
+			}
+			if len(t.RevokedCertificates) != 3 {
+				return "RevokedCertificates length"
+			}
+			r1, r2 := t.RevokedCertificates[1], t.RevokedCertificates[2]
+			if r1.RevocationReason != x509.KeyCompromise || !r1.InvalidityDate.Equal(this.Add(-72*time.Hour)) || len(r1.Issuer.DirectoryNames) != 1 || r2.RevocationReason != x509.RemoveFromCRL {
+				return fmt.Sprintf("revoked entries: %+v %+v", r1, r2)
+			}
+			return ""
+		}
+		out = append(out, b)
+	}
+	build("full", false)
+	build("delta", true)
 	return out
 }
 
@@ -504,12 +667,12 @@ func stdCRLs() []*built {
 					old = append(old, oldEnt)
 				}
 				rl := &sx.RevocationList{Number: big.NewInt(int64(100 + ne)), ThisUpdate: this, NextUpdate: next, RevokedCertificateEntries: entries}
-				d, err := sx.CreateRevocationList(rand.Reader, rl, issuer, signer.Priv)
+				d, err := sx.CreateRevocationList(zeroReader{}, rl, issuer, signer.Priv)
 				if err != nil {
 					panic(err)
 				}
 				out = append(out, &built{DER: d, Kind: "crl", Name: fmt.Sprintf("CreateRevocationList key=%d t=%d entries=%d", ki, ti, len(entries)), TBSOff: -1})
-				d, err = issuer.CreateCRL(rand.Reader, signer.Priv, old, this, next)
+				d, err = issuer.CreateCRL(zeroReader{}, signer.Priv, old, this, next)
 				if err != nil {
 					panic(err)
 				}
@@ -570,7 +733,7 @@ func stdCSRs() []*built {
 					if xe == 1 {
 						t.ExtraExtensions = []spkix.Extension{{Id: oidUnkNon, Value: unkNonVal}, {Id: []int{2, 5, 29, 15}, Critical: true, Value: der.BitString([]byte{0x80}, 7)}}
 					}
-					d, err := sx.CreateCertificateRequest(rand.Reader, t, k.Priv)
+					d, err := sx.CreateCertificateRequest(zeroReader{}, t, k.Priv)
 					if err != nil {
 						panic(err)
 					}
